@@ -151,6 +151,7 @@ func ApproveRemoveRelayer(native *native.NativeService) ([]byte, error) {
 	for _, address := range relayerListParam.AddressList {
 		native.GetCacheDB().Delete(utils.ConcatKey(utils.RelayerManagerContractAddress, []byte(RELAYER), address[:]))
 	}
+	native.GetCacheDB().Delete(utils.ConcatKey(utils.RelayerManagerContractAddress, []byte(RELAYER_REMOVE), utils.GetUint64Bytes(params.ID)))
 	native.AddNotify(
 		&event.NotifyEventInfo{
 			ContractAddress: utils.RelayerManagerContractAddress,
